@@ -7,9 +7,10 @@ import CLModel.Ops.C05
 import CLModel.Ops.C19
 import CLModel.Ops.C03
 import CLModel.Ops.C10
+import CLModel.Ops.C16
 
 def allOps : List (String × (List String → String)) :=
-  Ops.Rx.ops ++ Ops.C20.ops ++ Ops.C01.ops ++ Ops.C04.ops ++ Ops.C05.ops ++ Ops.C19.ops ++ Ops.C03.ops ++ Ops.C10.ops
+  Ops.Rx.ops ++ Ops.C20.ops ++ Ops.C01.ops ++ Ops.C04.ops ++ Ops.C05.ops ++ Ops.C19.ops ++ Ops.C03.ops ++ Ops.C10.ops ++ Ops.C16.ops
 
 def handle (line : String) : String :=
   match ((Proto.splitChars (Char.ofNat 32) (line.toList.filter (fun c => c != (Char.ofNat 10) && c != (Char.ofNat 13)))).map String.ofList).filter (· ≠ "") with
